@@ -5,9 +5,9 @@ CONSTANTS MaxLen = 3
           MaxTorn = 1
           PageBits = 2
           Cadence = "code"
-          Role = "writer"
+          Role = "replica"
           TruncOnOpen = TRUE
           Mut = "none"
 VIEW NoHist
-INVARIANTS Export TypeOK RecoverOK RecoverContig MemView TreeSound HeaderBitProtocol KeyHygiene
+INVARIANTS Export TypeOK RecoverNodes RecoverOK RecoverContig MemView TreeSound HeaderBitProtocol KeyHygiene
 CHECK_DEADLOCK FALSE
